@@ -9,7 +9,7 @@ import time
 import vlib
 
 PROP = "C18"
-WL = ["catalogue", "dns", "tags", "reasm", "addr", "radiotap", "wifi", "build"]
+WL = ["catalogue", "dns", "tags", "reasm", "addr", "radiotap", "wifi", "build", "pcap"]
 LIBS = ("-lpcap", "-lcrypto", "-lpthread", "-ldl")
 FLAGS = ("-rdynamic",)
 
@@ -105,7 +105,8 @@ def run(tier):
         "distinct_nontrivial": len({vlib.canon_hash(s) for s in scen if "wl" in s}),
         "rule": "scenario = assignment of one of %d workloads (thread-private parse/touch/clone/serialise of the 52-entry catalogue, DNS "
                 "encode/decode, protocol-table lookups incl. unknown and user-registered ids, IPv4 reassembly + TCP stream following, "
-                "address text/ranges, RadioTap setters + FCS, WEP/CCMP/TKIP decryption with per-thread keys, API building/copying/moving) "
+                "address text/ranges, RadioTap setters + FCS, WEP/CCMP/TKIP decryption with per-thread keys, API building/copying/moving, "
+                "a capture file per thread written with PacketWriter and read back with FileSniffer) "
                 "to each of k threads: all ordered pairs (k=2), seeded assignments for k in %s; every scenario with distinct and with "
                 "identical per-thread data, repeated with randomised yields; each workload first run alone, then concurrently under "
                 "ThreadSanitizer" % (len(WL), ks),
@@ -122,7 +123,7 @@ def run(tier):
         "part is the TLA+ model of the access protocols (SharedCells), bound to the code by the inventory of writable globals and the detector",
         "libcrypto and libpcap are not instrumented: races inside them (not libtins state) would not be seen",
         "the user registers protocols before starting threads (the property's premise); SharedCells shows a late registration races",
-        "sniffing, sending and file I/O (OS interaction) are not part of the workloads",
+        "live sniffing and sending (OS interaction) are not part of the workloads",
     ])
     return rc
 
